@@ -32,7 +32,7 @@ let c5_parse_op name (a : args) : op option =
 let c5_check_names = [| ""; "trigger-time-changed-or-attributes-changed"; "triggered-outside-window";
   "removal-events"; "downtime-end-count"; "owned-downtime-removed-by-user"; "cleanup-of-expired";
   "trigger-on-result"; "trigger-on-add"; "downtime-start-count"; "triggered-event-missing"; "downtime-depth"; "chain-not-propagated" |]
-let c5_finding_names = [| "none"; "unused"; "lost-start"; "start-at-end-instant" |]
+let c5_finding_names = [| "none"; "unused"; "lost-start"; "unused" |]
 
 let oracle_c05_case script trace =
   let kind = ref KHost in
